@@ -186,8 +186,22 @@ func c12Exec(run *ev.Run, c ev.Case) {
 
 func c12Records(adv int, shuffle int) []refbmc.SuiteRecord {
 	var recs []refbmc.SuiteRecord
+	// suites 3 (1/1/1) and 2 (1/1/0) differ only in the confidentiality algorithm: in half of the
+	// cases they are advertised as ONE record listing two confidentiality algorithms
+	merged := adv&0b1010 == 0b1010 && shuffle%2 == 0
 	for i, su := range c12U {
 		if adv&(1<<i) == 0 {
+			continue
+		}
+		if merged && i == 3 {
+			continue
+		}
+		if merged && i == 1 {
+			confs := []byte{1, 0}
+			if shuffle%4 == 0 {
+				confs = []byte{0, 1}
+			}
+			recs = append(recs, refbmc.SuiteRecord{ID: 3, Auth: 1, Integs: []byte{1}, Confs: confs})
 			continue
 		}
 		rec := refbmc.SuiteRecord{ID: c12IDs[i], Auth: su.Auth}
